@@ -263,6 +263,13 @@ def gen_model(rng):
     if rng.random() < 0.3:
         items.append({"t": "var", "name": "w", "role": "none", "fam": "Normal", "args": {"loc": mu0, "scale": {"c": 1.5}},
                       "shape": [2], "per_obs": bool(rng.random() < 0.5)})
+    if rng.random() < 0.4:
+        # a leaf weak variable with its own distribution: nothing else consumes it, so it is reachable
+        # from the totals only through the `at` link of its distribution node
+        items.append({"t": "calc", "name": "zw", "op": "affine", "args": [{"v": "theta"}],
+                      "extra": {"a": float(rng.integers(-1, 2)), "b": float(rng.choice([0.5, 2.0]))}, "as_var": True,
+                      "dist": {"fam": "Normal", "args": {"loc": {"c": 0.0}, "scale": {"c": 3.0}},
+                               "role": str(rng.choice(["none", "param", "obs"])), "per_obs": bool(rng.random() < 0.5)}})
     user = {}
     r = rng.random()
     if r < 0.12:
